@@ -42,6 +42,7 @@ func runC16(w *World) *Result {
 	r.Rule("R-C16-jumps", "Batch loop/branch jumps use the labels their opener pushed (never a label recomputed from a moving counter)", 6)
 	r.Rule("R-C16-driver", "the driver calls the bracket methods of if / for / func / program in matched order on every success path (an opener or header skipped leaves a closer without its opening line)", 5)
 	BracketProtoRule(w, r, "R-C16-driver")
+	r.Rule("R-C16-data", "Bash: string data cannot change the lexical structure the syntax check sees: every string hole sits inside double quotes that the data cannot close (quote characters of literals are neutralised, quoting does not depend on the data)", 20)
 	r.Rule("R-C16-defined", "every function a script can call is defined in it: call edges are recorded at the construction of call nodes, merged completely across imports, and removal follows their closure", 5)
 	c09Edge(w, r, "R-C16-defined")
 	c09Merge(w, r, "R-C16-defined")
@@ -62,6 +63,9 @@ func runC16(w *World) *Result {
 		c16Balance(w, b, r)
 		c16Helpers(w, b, r)
 		c16Nop(w, b, r)
+		if role == "bash" {
+			c16Data(w, b, r)
+		}
 		if role == "batch" {
 			c16Labels(w, b, r)
 			// jumps stay inside their construct: labels/flags read back from the opener's stack entry
@@ -69,6 +73,34 @@ func runC16(w *World) *Result {
 		}
 	}
 	return r
+}
+
+// c16Data: the part of C08's per-hole verdicts that matters to the syntax check. A hole
+// outside double quotes (or in command position), quoting that depends on the data's own
+// first / last character, and a literal conversion that lets a quote character through can
+// each produce a line the shell cannot parse ( echo a)b , x="say "hi" ). Holes that are only
+// re-parsed at run time (inside the argument of eval) or taken as an option do not affect
+// the syntax check and are C08's business alone.
+func c16Data(w *World, b *Backend, r *Result) {
+	rule := "R-C16-data"
+	tmp := NewResult("C08")
+	c08Quote(w, b, tmp, nil)
+	c08Escape(w, b, tmp)
+	for _, o := range tmp.Obs {
+		if o.Rule != "R-C08-quote" && o.Rule != "R-C08-escape" {
+			continue
+		}
+		key := "data:" + o.Construct
+		syntactic := strings.HasSuffix(o.Construct, ":q1-unquoted") || strings.HasSuffix(o.Construct, ":q5-command") || strings.HasSuffix(o.Construct, ":data-dependent") || strings.HasPrefix(o.Construct, "escape:bash:StringToString") || strings.HasSuffix(o.Construct, ":unclassified") || strings.HasPrefix(o.Construct, "scan:")
+		switch {
+		case o.OK:
+			r.Ok(rule, key, o.Pos, o.Detail)
+		case syntactic:
+			r.Bad(rule, key, o.Pos, "the emitted line can fail the shell's syntax check for some value: "+o.Detail)
+		default:
+			r.Triv(rule, key, o.Pos, "affects the value at run time only, not what the syntax check sees: "+o.Detail)
+		}
+	}
 }
 
 func lineKey(l *Line) string {
